@@ -123,6 +123,17 @@ namespace ValueFlow
             try {
                 MathLib::bigint signedValue = MathLib::toBigNumber(tok);
                 const ValueType* vt = tok->valueType();
+                if (tok->tokType() == Token::eChar && isPrefixStringCharLiteral(tok->str(), '\'', "")) {
+                    // simplecpp::characterLiteralToLL converts through the host's char and int;
+                    // redo the final conversion for the selected platform
+                    const Platform& platform = settings.platform;
+                    if (tok->isCChar()) {
+                        if (platform.defaultSign == 'u' && signedValue < 0)
+                            signedValue += 1LL << platform.char_bit;
+                    } else if (platform.sizeof_int > 0 && platform.sizeof_int < sizeof(int)) {
+                        signedValue = truncateIntValue(signedValue, platform.sizeof_int, ValueType::Sign::SIGNED);
+                    }
+                }
                 if (vt && vt->sign == ValueType::UNSIGNED && signedValue < 0
                     && vt->getSizeOf(settings, ValueType::Accuracy::ExactOrZero, ValueType::SizeOf::Pointer)
                     < sizeof(MathLib::bigint)) {
